@@ -232,7 +232,10 @@ def mutate_both(x, spec, m):
         attrs = attrs[1:]
     elif m == "attr-set":
         x.attrs["data-new"] = "n&w"
-        attrs = [a for a in attrs if a[0] != "data-new"] + [["data-new", "n&w"]]
+        if any(a[0] == "data-new" for a in attrs):
+            attrs = [[a[0], "n&w"] if a[0] == "data-new" else a for a in attrs]    # replaced in place
+        else:
+            attrs = attrs + [["data-new", "n&w"]]
     elif m == "attr-update":
         if not attrs:
             return None
